@@ -174,7 +174,7 @@ def cases(tier, seed):
             "instant": rng.choice([0.0, 0.0, 0.0, 0.25, 1.0]),
             # weights of the event classes arrive / burst / timer / release
             "w": rng.choice([[1, 1, 1, 1], [4, 2, 1, 1], [1, 0, 3, 3], [2, 2, 0.3, 2], [2, 2, 2, 0.3], [1, 4, 1, 1]]),
-            "uniq": uniq, "cp": rng.choice([0, 0, 0.2, 0.5]),
+            "uniq": uniq, "cp": rng.choice([0, 0, 0.2, 0.5]), "cancel": rng.choice([0, 0, 0, 1, 2]),
         }
 
 
@@ -406,7 +406,7 @@ def _pick(rng, script, pos, enabled, w):
     if pos < len(script):
         return enabled[script[pos] % len(enabled)]
     classes = sorted({e[0] for e in enabled})
-    ws = [max(w["ABTR".index(c)], 0.0) for c in classes]
+    ws = [max((list(w) + [0.6])["ABTRX".index(c)], 0.0) for c in classes]
     if sum(ws) <= 0:
         ws = [1.0] * len(classes)
     c = rng.choices(classes, weights=ws)[0]
@@ -436,6 +436,7 @@ def run_case(case):
               "requests": [[k, t] for k, t in zip(kinds, texts)], "index_items": items}
     base = {"nontrivial": False, "sample": sample, "cfg": case["cache"], "mode": case["mode"]}
     tasks = {}
+    cancelled = set()
     problem = None  # (mechanism, detail)
     arr = {"idle": 0, "hold": 0, "model": 0, "hold+model": 0}
     compound_steps = 0
@@ -497,7 +498,13 @@ def run_case(case):
                 enabled.append(("T", "T", None))
             for g in ctl.pending_gates():
                 enabled.append(("R", "R%d" % (g - build_calls), g))
-            if not enabled:
+            if case.get("cancel") and len(cancelled) < case["cancel"]:
+                # a CLIENT gives up on one of its requests (task.cancel() / a wait_for timeout): the other requests must
+                # still complete with their own vectors
+                for i_, t_ in tasks.items():
+                    if not t_.done() and i_ not in cancelled:
+                        enabled.append(("X", "X%d" % i_, i_))
+            if not enabled or all(e[0] == "X" for e in enabled):
                 break
             step = [_pick(rng, case["script"], pos, enabled, case["w"])]
             pos += 1
@@ -520,7 +527,10 @@ def run_case(case):
                         nxt += 1
                 elif c == "T":
                     loop._vt = max(loop._vt, min(h._when for h in drv.timers()))
-                else:
+                elif c == "X":
+                    cancelled.add(payload)
+                    tasks[payload].cancel()
+                elif not ctl.gates[payload].done():  # (a cancellation in the same step may already have cancelled this gate)
                     ctl.gates[payload].set_result(None)
             drv.settle()
             if _ST["blown"]:
@@ -535,6 +545,13 @@ def run_case(case):
             for i in range(n):
                 t = tasks[i]
                 obs["requests"] += 1
+                if i in cancelled and t.cancelled():
+                    obs["requests_cancelled_by_client"] = obs.get("requests_cancelled_by_client", 0) + 1
+                    obs[{"batch": "vectors_compared", "list": "lists_compared", "search": "searches_compared"}[kinds[i]]] += 1  # accounted for
+                    continue
+                if t.cancelled():
+                    problem = ("request-cancelled-although-its-client-did-not-cancel", {"request": i, "kind": kinds[i], "text": texts[i], "client_cancelled": sorted(cancelled)})
+                    break
                 if t.exception() is not None:
                     e = t.exception()
                     key = "no-progress-spin" if isinstance(e, steps.StepBudgetExceeded) else "exception:%s" % type(e).__name__
